@@ -11,5 +11,10 @@ LEAVES = [
     ("IdentPins", "src_reply_additionals", "_handlers/answers.py", "_add_answers_additionals", ("assign", "additionals", 0), [], "src", {}),
     ("IdentPins", "src_reply_iter", "_handlers/answers.py", "_add_answers_additionals", ("for_iter_of", "additional", 0), [], "src", {}),
     ("IdentPins", "src_reply_test", "_handlers/answers.py", "_add_answers_additionals", ("if", "not in sending", 0), [], "src", {}),
+    # what is put where: the record added to `sending` is the ADDITIONAL just sent (not the answer), the records written are the answer / that additional
+    ("IdentPins", "src_reply_sending_add", "_handlers/answers.py", "_add_answers_additionals", ("arg", "sending.add", 0, 0), [], "src", {}),
+    ("IdentPins", "src_reply_add_additional", "_handlers/answers.py", "_add_answers_additionals", ("arg", "out.add_additional_answer", 0, 0), [], "src", {}),
+    ("IdentPins", "src_reply_add_answer", "_handlers/answers.py", "_add_answers_additionals", ("arg", "out.add_answer_at_time", 0, 0), [], "src", {}),
+    ("IdentPins", "src_reply_answer_iter", "_handlers/answers.py", "_add_answers_additionals", ("for_iter_of", "answer", 0), [], "src", {}),
     ("IdentPins", "src_reply_census", "_handlers/answers.py", "_add_answers_additionals", ("census",), [], "src", {}),
 ]
